@@ -61,6 +61,51 @@ theorem C09_fmt12 (m : KV) (lang : Nat) (hm : Map32 m) (b : Bytes) (hb : encode 
     · simp only [group]
       exact sdFrom_mono _ k.1 0 (Nat.zero_le _) (sdFrom_groupAux rest k k (Nat.le_refl _) hk hch)
 
+/-- **The format 12 header.**  The subtable written by (the model of) `Format12.Encode` has format 12,
+reserved 0, a 32-bit LENGTH field (offset 4) equal to its byte length 16 + 12·numGroups — all four
+bytes, also for subtables of 64 KiB and more —, the language at offset 8 and the 32-bit group count at
+offset 12; a decoder that walks the subtable by its length field sees every group, so `C09_fmt12` holds
+for it as well. -/
+theorem C09_fmt12_header (m : KV) (lang : Nat) (hm : Map32 m) (hl : lang < 65536) (b : Bytes)
+    (hb : encode m lang = some b) :
+    b.length = 16 + 12 * (group m).length ∧ u16At b 0 = 12 ∧ u16At b 2 = 0 ∧
+    u32At b 4 = b.length ∧ u32At b 8 = lang ∧ u32At b 12 = (group m).length ∧
+    specGroupsLen b = specGroups b ∧ (∀ c, specLookupLen b c = lookupKV m c) := by
+  have hg := (specGroups_encode hm hb).2
+  have hbe := (specGroups_encode hm hb).1
+  have hlt : 16 + (group m).length * 12 < 4294967296 := by
+    unfold encode encodeGroups at hb
+    split at hb
+    · cases hb
+    · omega
+  have hlen : b.length = 16 + 12 * (group m).length := by
+    rw [hbe, List.length_append, header_length, flatMap_grpBytes_length]; omega
+  have h4 : u32At b 4 = 16 + (group m).length * 12 := by
+    rw [hbe]
+    unfold u32At
+    simp only [header, be32, be16, List.cons_append, List.nil_append, List.drop_succ_cons, List.drop_zero]
+    exact be32_val _ hlt _ _ _ _ rfl rfl rfl rfl
+  have h8 : u32At b 8 = lang := by
+    rw [hbe]
+    unfold u32At
+    simp only [header, be32, be16, List.cons_append, List.nil_append, List.drop_succ_cons, List.drop_zero,
+      UInt8.toNat_ofNat']
+    show ((0 * 256 + 0) * 256 + lang / 256 % 256 % 256) * 256 + lang % 256 % 256 = lang
+    omega
+  have hsl : specGroupsLen b = specGroups b := by
+    unfold specGroupsLen
+    rw [h4, hg]
+    apply List.take_of_length_le
+    omega
+  refine ⟨hlen, ?_, ?_, by rw [h4, hlen]; omega, h8, ?_, hsl, ?_⟩
+  · rw [hbe]; rfl
+  · rw [hbe]; rfl
+  · rw [hbe]; exact u32At_header_n _ _ _ (by omega)
+  · intro c
+    unfold specLookupLen
+    rw [hsl]
+    exact (C09_fmt12 m lang hm b hb).1 c
+
 /-- `Format12.Encode` does not panic unless the output would reach 4 GiB. -/
 theorem C09_fmt12_total (m : KV) (lang : Nat) (h : 16 + m.length * 12 < 4294967296) :
     (encode m lang).isSome = true := by
